@@ -312,7 +312,7 @@ def run_case(case, seed=0, replay_dir=None, known=None):
                 continue
             dis, side = qdom.diff_terms(lhs, rhs)
             # non-trivial = at least one side depends on symbolic inputs (its normal form is not a constant)
-            ob["nontrivial"] = not (Q.lift(lhs).isconst() and Q.lift(rhs).isconst())
+            ob["nontrivial"] = bool(getattr(case, "all_nontrivial", False)) or not (Q.lift(lhs).isconst() and Q.lift(rhs).isconst())
             if not dis:
                 ob.update(status="unsat", seconds=0.0, how="identical normal forms")
                 res["obligations"].append(ob)
